@@ -647,8 +647,12 @@ dt_io_unescape(char *s)
 		return;
 	} else if ((p = q = strchr(s, '\\')) != NULL) {
 		do {
-			if (*p != '\\' || !*++p) {
+			if (*p != '\\') {
 				*q++ = *p++;
+			} else if (!*++p) {
+				/* trailing backslash, nothing to escape */
+				*q++ = '\\';
+				break;
 			} else if (*p < 'a' || *p > 'v') {
 				*q++ = *p++;
 			} else {
@@ -712,7 +716,8 @@ dt_io_strpdtdur(struct __strpdtdur_st_s *st, const char *str)
 		switch (*sp++) {
 		case '\0':
 			res = -1;
-			ep = sp;
+			/* sp is past the terminator already */
+			ep = --sp;
 			goto out;
 		case '+':
 			st->sign = 1;
